@@ -11,6 +11,9 @@ use vgen::resolve::{comp_tags, set_root_order};
 use vgen::rng::{hash_str, Rng};
 use vgen::schema::*;
 
+/// tag numbers beyond the 6 bits / 1 octet / 2 octets an identifier octet or a packed sort key might assume
+const LARGE_TAG_NUMBERS: &[u64] = &[63, 64, 65, 70, 127, 128, 130, 255, 256, 1000, 16383, 16384, 70000];
+
 fn support_defs(m: &mut Module) {
     m.push_def(Def { name: "RefApp".into(), tag: Some(Tag { class: Class::Application, num: 7 }), ty: Type::int(0, 7) });
     m.push_def(Def { name: "RefPriv".into(), tag: Some(Tag { class: Class::Private, num: 1 }), ty: Type::Boolean });
@@ -281,7 +284,7 @@ pub fn run(rep: &mut Report, tier: &str, seed: u64, shard: u64, nshards: u64) {
                 "automatic" => None,
                 "all-context" => {
                     let t = loop {
-                        let t = Tag { class: Class::Context, num: rng.range(0, 9) };
+                        let t = Tag { class: Class::Context, num: if rng.chance(1, 3) { *rng.pick(LARGE_TAG_NUMBERS) } else { rng.range(0, 9) } };
                         if !used.contains(&t) {
                             break t;
                         }
@@ -291,7 +294,7 @@ pub fn run(rep: &mut Report, tier: &str, seed: u64, shard: u64, nshards: u64) {
                 }
                 "mixed-classes" => {
                     let t = loop {
-                        let t = Tag { class: *rng.pick(&[Class::Universal, Class::Application, Class::Context, Class::Private]), num: rng.range(0, 4) + if rng.bool() { 30 } else { 0 } };
+                        let t = Tag { class: *rng.pick(&[Class::Universal, Class::Application, Class::Context, Class::Private]), num: if rng.chance(1, 3) { *rng.pick(LARGE_TAG_NUMBERS) } else { rng.range(0, 4) + if rng.bool() { 30 } else { 0 } } };
                         // keep clear of the tags untagged components could have in this draw
                         if !used.contains(&t) && !(t.class == Class::Universal && t.num < 30) {
                             break t;
@@ -304,7 +307,7 @@ pub fn run(rep: &mut Report, tier: &str, seed: u64, shard: u64, nshards: u64) {
                     // partly tagged: the first component is always tagged, the others at random; untagged ones keep their own tag
                     if j == 0 || rng.bool() {
                         let t = loop {
-                            let t = Tag { class: *rng.pick(&[Class::Application, Class::Context, Class::Private]), num: 40 + rng.range(0, 9) };
+                            let t = Tag { class: *rng.pick(&[Class::Application, Class::Context, Class::Private]), num: if rng.chance(1, 3) { *rng.pick(LARGE_TAG_NUMBERS) } else { 40 + rng.range(0, 9) } };
                             if !used.contains(&t) {
                                 break t;
                             }
